@@ -89,7 +89,7 @@ CLAIMED.update({
  "C09": dict(engine="valsim", cat="exploration", ref="DESIGN.md §3 C09, §11.7",
    technique=VT + "reference rule predicate on every accepted message and single-rule mutants of every honest message",
    text="Oracle 1: every ACCEPTED message is judged by a reference predicate written from the statement (own validator and operator-key tables, topic, leader, quorum and window arithmetic with wider windows than the implementation's, stdlib RSA, own per-signer record). Oracle 2: before every honest message up to 32 single-rule mutants of it, and after its acceptance 6 history mutants, are gossiped with correctly re-signed envelopes; a mutant the reference confirms as rule-breaking must not be accepted (about 2 million mutants per quick run). Two defects repaired (fix: f17d666b5, f763c0541), one known finding (partial-signature messages have no slot window, two signatures).",
-   note="The 'schedules' part of the quantifier (concurrent validation sharing per-signer state) is NOT covered. BLS message signatures are not a gossip rule of the statement and are not judged. Simulator written by a builder sub-agent, reviewed and re-run by me."),
+   note="Concurrent validation is covered at one seam only: pairs of messages validated by two goroutines that park at the operator-key lookup (between the per-signer check and update), interleaved by a lock-aware scheduler; removing the per-message-id lock is caught. BLS message signatures are not a gossip rule of the statement and are not judged. Simulator written by a builder sub-agent, reviewed and re-run by me."),
 })
 
 NOT_YET = {}
